@@ -1,0 +1,10 @@
+//go:build verif
+
+package expand
+
+import "mvdan.cc/sh/v3/syntax"
+
+// VerifC22LiteralKeepEscapes exposes literalKeepEscapes to the C22 verification harness.
+func VerifC22LiteralKeepEscapes(cfg *Config, word *syntax.Word) (string, error) {
+	return literalKeepEscapes(cfg, word)
+}
